@@ -19,4 +19,5 @@ import (
 	_ "polycheck/props/c15"
 	_ "polycheck/props/c16"
 	_ "polycheck/props/c17"
+	_ "polycheck/props/c19"
 )
